@@ -456,6 +456,8 @@ fn sig_c12(l: &Ledger) -> Vec<u64> {
 fn c12() -> PropSpec {
     let mut p = Profile::base("capacity");
     p.max_tx = &[0, 1, 1, 2, 2, 3, 4, 10];
+    p.p_gap_600s = 25;
+    p.p_burst = 150;
     p.n_app = (2, 40);
     p.app_gap_ns = (1000, 3 * SEC);
     p.p_srv_silent = 250;
@@ -555,13 +557,15 @@ fn sig_c07(l: &Ledger) -> Vec<u64> {
 fn c07() -> PropSpec {
     let mut p = Profile::base("short-term");
     p.mech_w = [0, 3, 1, 1, 0];
+    p.max_tx = &[1, 2, 4, 10, 10, 16];
+    p.p_burst = 200;
+    p.n_app = (1, 14);
     p.p_srv_integ = 350;
     p.p_srv_code = 150;
     p.p_srv_dup = 100;
     p.p_indication = 150;
     p.inj_w = [2, 1, 1, 6, 1, 0, 2, 1, 0, 2];
     p.n_inj = (0, 4);
-    p.n_app = (1, 6);
     p.rc = (1, 5);
     p.p_corrupt = 30;
     PropSpec {
@@ -878,7 +882,9 @@ fn c17() -> PropSpec {
     p.p_srv_dup = 100;
     p.p_dup = 150;
     p.p_reliable = 200;
-    p.n_app = (1, 6);
+    p.n_app = (1, 14);
+    p.max_tx = &[1, 2, 3, 4, 10, 10, 16];
+    p.p_burst = 200;
     p.p_srv_lt = 200;
     PropSpec {
         id: "C17",
